@@ -24,6 +24,8 @@ def _always_exits(stmts):
 
 def literals(t, positive=True):
     """Flatten a test term into a list of literals that all hold."""
+    if t[0] == "call" and t[1] == ("global", "bool") and len(t[2]) == 1 and not t[3]:
+        return literals(t[2][0], positive)   # bool(x) as a condition is x
     if positive:
         if t[0] == "and":
             out = []
